@@ -260,6 +260,7 @@ type Result struct {
 	Hash   map[uint64]int   // hashAlert -> id
 	Wait   int64
 	member map[int][]string
+	Instance int
 	Dumps  []GroupsDump // GET /alerts/groups content (Dispatcher.Groups) after every operation
 }
 
@@ -531,12 +532,15 @@ func (res *Result) Case(gkey string) (string, map[string]int) {
 			}
 			inFlight = true
 			pendingRec = map[int]bool{}
-			if nsup < len(r.Alerts) {
-				for i := range g.Ints {
-					evs = append(evs, evt{t: r.T + res.Wait, ev: vh.App("EDedup", vh.Nat(i))})
-					lastFor[i] = len(evs) - 1
-				}
+			_ = nsup
+		case "query":
+			// DedupStage's read of the log, after the cluster wait (recorded atomically with the read itself)
+			if r.GKey != gkey || r.Recv != g.Receiver || r.I >= len(g.Ints) {
+				continue
 			}
+			evs = append(evs, evt{t: r.T, ev: vh.App("EDedup", vh.Nat(r.I))})
+			lastFor[r.I] = len(evs) - 1
+			stats["dedup"]++
 		case "notify":
 			if r.GKey != gkey {
 				continue
@@ -554,6 +558,12 @@ func (res *Result) Case(gkey string) (string, map[string]int) {
 				evs[k].outs = append(evs[k].outs, vh.App("OLog", vh.Nat(r.I), res.hashIDs(r.Firing), res.hashIDs(r.Resolved), vh.Z(r.T)))
 			}
 			stats["log"]++
+		case "merge":
+			if r.GKey != gkey || r.Recv != g.Receiver || r.I >= len(g.Ints) {
+				continue
+			}
+			evs = append(evs, evt{t: r.T, ev: vh.App("ENflogMerge", vh.Nat(r.I), vh.App("mkN", res.hashIDs(r.Firing), res.hashIDs(r.Resolved), vh.Z(r.Ts), vh.Z(r.Exp)))})
+			stats["merge"]++
 		case "flushend":
 			if r.GKey != gkey {
 				continue
@@ -983,6 +993,8 @@ func (res *Result) Dump() string {
 			fmt.Fprintf(&b, "%12d notify %s i=%d %s reason=%q %v\n", rel, r.GKey, r.I, r.Outcome, r.Reason, xs)
 		case "log":
 			fmt.Fprintf(&b, "%12d log %s i=%d firing=%s resolved=%s\n", rel, r.GKey, r.I, res.hashIDs(r.Firing), res.hashIDs(r.Resolved))
+		case "merge":
+			fmt.Fprintf(&b, "%12d merge %s i=%d firing=%s resolved=%s ts=%d exp=%d\n", rel, r.GKey, r.I, res.hashIDs(r.Firing), res.hashIDs(r.Resolved), r.Ts-res.T0, r.Exp-res.T0)
 		case "flushend":
 			fmt.Fprintf(&b, "%12d flushend %s ok=%v\n", rel, r.GKey, r.Ok)
 		}
